@@ -21,10 +21,6 @@ from c03 import CharTable
 QTOK = {"n": None, "1": "'", "2": '"', "s": "'''", "d": '"""'}
 OPTS = ["None", "True", "False"]
 
-# finding ids (F9: DESIGN.md section 2; the second one was found while building this check)
-F_PLUS_CASE = "F9"
-F_SHADOW = "C11-shadowed-star"
-
 
 # ----------------------------------------------------------------------------- plain helpers
 def unstar(v):
@@ -165,34 +161,6 @@ def asked(sw, mand):
     return ("sel", flagged, final)
 
 
-def finding_of(mw, sw, opt):
-    """Known defects, recognised from the input alone (used by in_domain and match_finding)."""
-    mand = mand_of(opt)
-    if is_plain(sw, "auto") or (is_plain(sw, "none") and not mand) or not mw:
-        return None
-    keys = [key_of(w[0]) for w in mw]
-    if plus_form(sw):
-        # F9: first piece that is not literally one of the lower-cased names is an alternative up to case
-        for p in (p for w in sw for p in w[0].split("+") if p != ""):
-            if p not in keys:
-                return F_PLUS_CASE if (p.lower() in keys and p != p.lower()) else None
-        return None
-    # C11-shadowed-star: a starred unknown name is silently dropped when the same name was given un-starred earlier
-    seen_unsel = set()
-    single = len(sw) == 1
-    for w in sw:
-        k = key_of(w[0])
-        sel = w[0].startswith("*") or single
-        if sel:
-            if k not in keys:
-                if k in seen_unsel:
-                    return F_SHADOW
-                return None  # a genuine error is raised first
-        else:
-            seen_unsel.add(k)
-    return None
-
-
 def prop_fetch(mw, sw, multi, opt, F, E, check_lines=True):
     mand = mand_of(opt)
     keys = [key_of(w[0]) for w in mw]
@@ -207,19 +175,14 @@ def prop_fetch(mw, sw, multi, opt, F, E, check_lines=True):
     unknown = [n for n in names if n.lower() not in keys]
     if unknown:
         if F[0] != "err" or F[1:3] != ["Sorry", "NotAChoice"]:
-            tag = finding_of(mw, sw, opt)
-            return "%sselected name(s) %r are not alternatives but no 'not a possible choice' error: %r" % (
-                tag + ": " if tag else "", unknown, F)
+            return "selected name(s) %r are not alternatives but no 'not a possible choice' error: %r" % (unknown, F)
         if F[3] not in unknown:
-            tag = finding_of(mw, sw, opt)
-            return "%serror names %r which is not one of the unknown selected names %r" % (
-                tag + ": " if tag else "", F[3], unknown)
+            return "error names %r which is not one of the unknown selected names %r" % (F[3], unknown)
         if [unstar(x) for x in F[4]] != [unstar(w[0]) for w in mw]:
             return "error lists alternatives %r, master has %r" % (F[4], [w[0] for w in mw])
         return None
     if F[0] != "ok":
-        tag = finding_of(mw, sw, opt)
-        return "%severy selected name is an alternative, yet fetch failed: %r" % (tag + ": " if tag else "", F)
+        return "every selected name is an alternative, yet fetch failed: %r" % (F,)
     rw = F[1]
     if len(rw) != len(mw):
         return "result has %d alternatives, master has %d" % (len(rw), len(mw))
@@ -419,15 +382,16 @@ class FetchParsed(Stream):
     def __init__(self, ctx):
         super().__init__(ctx)
         self.fp = import_freephil()
-        self.known = {f["id"] for f in vlib.load_findings("C11") if f.get("status") == "open"}
 
-    # corpus: literal witnesses of the recorded defects + spellings of the existing tests
-    W_F9 = [[["A", "n"], ["b", "n"], ["C", "n"]], [["A+b", "n"]], True, "None"]
+    # corpus: the two inputs on which the property used to fail (repaired in /repo: '+' form with
+    # upper-case names; starred unknown name after the same name un-starred) - must pass now -
+    # + spellings of the existing tests
+    W_PLUS_CASE = [[["A", "n"], ["b", "n"], ["C", "n"]], [["A+b", "n"]], True, "None"]
     W_SHADOW = [[["a", "n"], ["b", "n"]], [["x", "n"], ["*x", "n"]], False, "None"]
 
     def corpus(self):
         return [
-            self.W_F9, self.W_SHADOW,
+            self.W_PLUS_CASE, self.W_SHADOW,
             [[["A", "n"], ["b", "n"], ["C", "n"]], [["a+b", "n"]], True, "None"],
             [[["*a", "n"], ["b", "n"]], [["None", "n"]], False, "False"],
             [[["*a", "n"], ["b", "n"]], [["None", "n"]], False, "True"],
@@ -547,15 +511,7 @@ class FetchParsed(Stream):
         return prop_fetch(o[0], o[1], multi, opt, o[2], o[3])
 
     def in_domain(self, case):
-        mw, sw, multi, opt = case
-        if not well_formed_master(mw):
-            return False
-        f = finding_of(mw, sw, opt)
-        if f is not None:
-            # F9 / C11-shadowed-star (recorded defects): only the literal corpus witness stays in the domain, and only
-            # once the finding is listed in known_findings.json (so that it is reported as KNOWN-FINDING)
-            return f in self.known and case in (self.W_F9, self.W_SHADOW)
-        return True
+        return well_formed_master(case[0])
 
     def key(self, case, o):
         if o[0] == "skip":
@@ -697,9 +653,8 @@ class FetchDirect(Stream):
     def in_domain(self, case):
         mw, sw, multi, opt, ign = case
         # the property speaks about parsed definitions: at least one source word, error reporting on,
-        # .optional in {None, True, False}; F9 / C11-shadowed-star inputs are excluded here (witnesses live in fetch_parsed)
-        return (well_formed_master(mw) and len(sw) >= 1 and not ign and opt != "Auto"
-                and finding_of(mw, sw, opt) is None)
+        # .optional in {None, True, False}
+        return well_formed_master(mw) and len(sw) >= 1 and not ign and opt != "Auto"
 
     def key(self, case, o):
         return repr(case) if case[1] else None
@@ -832,18 +787,6 @@ class TypeStr(Stream):
         return replies[0]
 
 
-def match_finding(finding, failure):
-    """F9: '+' form in which the first name that is not literally a lower-cased alternative is an
-    alternative up to case (so it contains an upper-case character).
-    C11-shadowed-star: a starred unknown name preceded by the same name un-starred."""
-    case = failure.get("case")
-    if not isinstance(case, list) or len(case) != 4:
-        return False
-    mw, sw, multi, opt = case
-    return finding.get("id") in (F_PLUS_CASE, F_SHADOW) and finding_of(mw, sw, opt) == finding.get("id") \
-        and str(failure.get("what", "")).startswith(finding["id"] + ":")
-
-
 SPEC = {
     "clusters": ["Tok", "Choice"],
     "streams": [CharTable, FetchParsed, FetchDirect, AsWords, TypeStr],
@@ -860,5 +803,4 @@ SPEC = {
                 "Harness-side parsing of the Sorry text (first line: offending value; lines after 'Possible choices are:')"],
     "modelled": "choice_converters modelled by hand in coq/theories/Model/Choice.v; error kinds are derived from message prefixes",
     "assumptions": ["text restricted to code points < 256", "alternative names without newlines (error text is parsed line-wise)"],
-    "match_finding": match_finding,
 }
